@@ -73,16 +73,48 @@ pub fn compose(s: u64, m: u64, e: i64) -> f64 {
     }
 }
 
-pub fn num_to_aj(n: &Number) -> Value {
-    let text = n.to_string();
+/// The canonical text of a number: what the default serialiser prints for the VALUE (integers as integers,
+/// doubles in shortest round-trip form), whatever spelling the crate under test's serde_json may have kept.
+pub fn canonical_text(n: &Number) -> String {
+    match classify(n) {
+        Num::U(u) => u.to_string(),
+        Num::I(i) => i.to_string(),
+        Num::F(f) => Number::from_f64(f).map(|c| c.to_string()).unwrap_or_else(|| n.to_string()),
+    }
+}
+
+pub enum Num {
+    U(u64),
+    I(i64),
+    F(f64),
+}
+
+/// The value of a number the way the default serde_json classifies it: non-negative integer, negative integer,
+/// double ("-0" is the double -0.0).  Independent of whether the crate under test makes serde_json keep spellings.
+pub fn classify(n: &Number) -> Num {
     if let Some(u) = n.as_u64() {
-        json!({"t":"n","k":"i","s":0,"m":limbs_of(u),"e":0,"x":cps(&text)})
+        Num::U(u)
     } else if let Some(i) = n.as_i64() {
-        json!({"t":"n","k":"i","s":1,"m":limbs_of(i.unsigned_abs()),"e":0,"x":cps(&text)})
+        if i == 0 {
+            Num::F(-0.0)
+        } else {
+            Num::I(i)
+        }
     } else {
-        let f = n.as_f64().expect("finite f64");
-        let (s, m, e) = decompose(f);
-        json!({"t":"n","k":"f","s":s,"m":limbs_of(m),"e":e,"x":cps(&text)})
+        // (a spelling beyond the double range can only exist when serde_json keeps spellings: not a JSON number here)
+        Num::F(n.as_f64().filter(|f| f.is_finite()).unwrap_or(0.0))
+    }
+}
+
+pub fn num_to_aj(n: &Number) -> Value {
+    let text = canonical_text(n);
+    match classify(n) {
+        Num::U(u) => json!({"t":"n","k":"i","s":0,"m":limbs_of(u),"e":0,"x":cps(&text)}),
+        Num::I(i) => json!({"t":"n","k":"i","s":1,"m":limbs_of(i.unsigned_abs()),"e":0,"x":cps(&text)}),
+        Num::F(f) => {
+            let (s, m, e) = decompose(f);
+            json!({"t":"n","k":"f","s":s,"m":limbs_of(m),"e":e,"x":cps(&text)})
+        }
     }
 }
 
@@ -191,8 +223,8 @@ pub fn from_aj(v: &Value) -> Result<Value, String> {
                 let xa = x.as_array().ok_or("x")?;
                 if !(xa.len() == 1 && xa[0].as_i64() == Some(-1)) {
                     let txt = str_of_cps(x)?;
-                    if txt != n.to_string() {
-                        return Err(format!("number text annotation {:?} != serialiser {:?}", txt, n.to_string()));
+                    if txt != canonical_text(&n) {
+                        return Err(format!("number text annotation {:?} != serialiser {:?}", txt, canonical_text(&n)));
                     }
                 }
             }
@@ -262,6 +294,91 @@ pub fn reverse_members(v: &Value) -> Value {
     }
 }
 
+/// The same value read from a text in which every non-integral number is spelled with a redundant trailing zero
+/// (1.5 -> 1.50, 1e21 -> 1.0e21).  With the default serde_json this is the identical value (None is returned);
+/// it differs only when the crate under test makes serde_json keep spellings.
+pub fn respelled(v: &Value) -> Option<Value> {
+    fn write(v: &Value, out: &mut String) {
+        match v {
+            Value::Number(n) if matches!(classify(n), Num::F(_)) => {
+                let t = canonical_text(n);
+                match (t.find('e'), t.find('.')) {
+                    (None, Some(_)) => { out.push_str(&t); out.push('0'); }
+                    (Some(i), Some(_)) => { out.push_str(&t[..i]); out.push('0'); out.push_str(&t[i..]); }
+                    (Some(i), None) => { out.push_str(&t[..i]); out.push_str(".0"); out.push_str(&t[i..]); }
+                    (None, None) => out.push_str(&t),
+                }
+            }
+            Value::Array(a) => {
+                out.push('[');
+                for (i, x) in a.iter().enumerate() {
+                    if i > 0 { out.push(','); }
+                    write(x, out);
+                }
+                out.push(']');
+            }
+            Value::Object(o) => {
+                out.push('{');
+                for (i, (k, x)) in o.iter().enumerate() {
+                    if i > 0 { out.push(','); }
+                    out.push_str(&Value::String(k.clone()).to_string());
+                    out.push(':');
+                    write(x, out);
+                }
+                out.push('}');
+            }
+            other => out.push_str(&other.to_string()),
+        }
+    }
+    // only when this build of serde_json keeps spellings (otherwise a re-read could only differ by the last-digit
+    // inaccuracy of serde_json's own float parser, which is not the crate's doing)
+    let keeps = serde_json::from_str::<Value>("1.50").map(|x| x.to_string() == "1.50").unwrap_or(false);
+    if !keeps {
+        return None;
+    }
+    let mut text = String::new();
+    write(v, &mut text);
+    match serde_json::from_str::<Value>(&text) {
+        Ok(w) if w != *v => Some(w),
+        _ => None,
+    }
+}
+
+/// Like reverse_members, but only every other object with two or more members (in traversal order) is reversed,
+/// so that two objects written in the same order end up in different orders.
+pub fn reverse_members_alternating(v: &Value) -> Value {
+    fn go(v: &Value, n: &mut usize) -> Value {
+        match v {
+            Value::Array(a) => Value::Array(a.iter().map(|x| go(x, n)).collect()),
+            Value::Object(o) => {
+                let flip = if o.len() > 1 {
+                    *n += 1;
+                    *n % 2 == 1
+                } else {
+                    false
+                };
+                let mut members: Vec<(&String, &Value)> = o.iter().collect();
+                if flip {
+                    members.reverse();
+                }
+                let mut m = serde_json::Map::new();
+                for (k, x) in members {
+                    m.insert(k.clone(), go(x, n));
+                }
+                Value::Object(m)
+            }
+            _ => v.clone(),
+        }
+    }
+    let mut n = 0usize;
+    go(v, &mut n)
+}
+
+/// Does this build of serde_json keep the member order of the document (feature preserve_order of the crate under test)?
+pub fn preserves_order() -> bool {
+    serde_json::from_str::<Value>("{\"b\":1,\"a\":2}").map(|v| v.to_string().starts_with("{\"b\"")).unwrap_or(false)
+}
+
 /// Does the value contain an object with two or more members?
 pub fn has_multi(v: &Value) -> bool {
     match v {
@@ -290,11 +407,15 @@ pub fn selftest() -> Result<(), String> {
         }
     }
     // serialiser facts the corpus annotations rely on
-    let facts = [("1e15", "1000000000000000.0"), ("1e-5", "0.00001"), ("100.0", "100.0"), ("-0.0", "-0.0"), ("-0", "-0.0"), ("1e0", "1.0"), ("1E2", "100.0"), ("10000000000000000000", "10000000000000000000")];
+    let facts = [("1e15", "1000000000000000.0"), ("1e-5", "0.00001"), ("100.0", "100.0"), ("-0.0", "-0.0"), ("1e0", "1.0"), ("1E2", "100.0"), ("10000000000000000000", "10000000000000000000")];
     for (t, x) in facts.iter() {
         let v: Value = serde_json::from_str(t).unwrap();
-        if v.to_string() != *x {
-            return Err(format!("serialiser fact changed: {} prints as {} (expected {})", t, v, x));
+        let got = match &v {
+            Value::Number(n) => canonical_text(n),
+            other => other.to_string(),
+        };
+        if got != *x {
+            return Err(format!("serialiser fact changed: {} prints as {} (expected {})", t, got, x));
         }
     }
     Ok(())
